@@ -275,6 +275,11 @@ def _trace_check(ctx):
             res['histogram']['raised'][type(e).__name__] = res['histogram']['raised'].get(type(e).__name__, 0) + 1
         res['histogram']['by_name'][name] = res['histogram']['by_name'].get(name, 0) + 1
         cases.append((spec, o, name, n, Hy, w, r))
+        if r[0] == 'ok' and name != 'bogus':
+            bad = c03lib.check_trace_launch(o, spec, name, n, Hy, w, r[1])
+            if bad:
+                res['disagreements'].append({'spec': spec, 'distribution': name, 'num_rays': n, 'Hy': Hy, 'oracle': bad,
+                                             'violates_property': True})
     bodies, index = [], []
     chunk = 10
     for start in range(0, len(cases), chunk):
@@ -407,6 +412,8 @@ def search(ctx, broken, disagreements):
                 found.append({'spec': spec, 'ray': list(ray), 'via': via, 'implementation': list(r), 'oracle': bad[:4],
                               'violates_property': True})
                 break
+    tr = _trace_check(ctx)
+    found.extend(d for d in tr.get('disagreements', []) if d.get('violates_property'))
     g = ctx.gen
     for name in DIST_NAMES + ['random', 'gq', 'gqsym']:
         for n in (range(1, 10) if name == 'hexapolar' else range(-1, 9) if name.startswith('gq') else range(1, 40)):
